@@ -9,6 +9,7 @@ outcomes are counted, never asserted.  The reference shares no code with adaptix
 from __future__ import annotations
 
 import base64
+import warnings
 import binascii
 import collections
 import collections.abc
@@ -128,7 +129,9 @@ def ref_load(spec, datum, strict: bool, env):  # noqa: C901, PLR0911, PLR0912, P
         if type(datum) is not str:
             return _U if isinstance(datum, str) else _R
         try:
-            return _acc(re.compile(datum))
+            with warnings.catch_warnings():
+                warnings.simplefilter("ignore", FutureWarning)   # "Possible nested set": a warning, not a refusal
+                return _acc(re.compile(datum))
         except re.error:
             return _R
         except (RecursionError, OverflowError):
